@@ -76,6 +76,14 @@ def gen_config(rng, size, allow_slow):
     cfg['finish-tape'] = rng.choice((0, 0, 1))
     return cfg
 
+def _pick_7ffd(rng):
+    v = rng.choice((0x10, 0x11, 0x17, 0x13, rng.randrange(64), rng.randrange(32)))
+    if v & 0x20 and not v & 0x10:
+        # lock + ROM 0: bin2tap's bank loader enables interrupts for two instructions after the final OUT; the 128K
+        # editor ROM's interrupt routine cannot page ROM 1 any more and crashes, on a real machine as in the simulation
+        v |= 0x10
+    return v
+
 def gen(rng, tier, index):
     kind = rng.choice(('48', '48', '48', '48clear', '48clear', '128'))
     big = 41984 if tier == 'thorough' else 12000
@@ -148,7 +156,7 @@ def gen(rng, tier, index):
             banks.sort()
         use_banks = rng.random() < 0.7
         scn.update({'bank_seeds': [rng.getrandbits(48) for _ in range(8)], 'begin': begin, 'end': end, 'clear': clear, 'loader': loader,
-                    'start': rng.choice([a for a in (rng.randrange(begin, e) for _ in range(8)) if not loader <= a < loader + 46] or [begin]), 'o7ffd': rng.choice((0x10, 0x11, 0x17, 0x13, rng.randrange(64), rng.randrange(32))),
+                    'start': rng.choice([a for a in (rng.randrange(begin, e) for _ in range(8)) if not loader <= a < loader + 46] or [begin]), 'o7ffd': _pick_7ffd(rng),
                     'banks': banks if use_banks else None, 'machine': '128',
                     'default_loader': rng.random() < 0.15 and begin > clear + 1 + 46})
     size = scn['data']['len'] if 'data' in scn else ((scn['end'] or 49152) - scn['begin'] + 16384 * (len(scn['banks']) if scn['banks'] is not None else 6))
